@@ -20,6 +20,8 @@ func main() {
 	switch os.Args[1] {
 	case "verify":
 		os.Exit(cmdVerify(os.Args[2:]))
+	case "replay":
+		os.Exit(cmdReplay(os.Args[2:]))
 	default:
 		fmt.Println("unknown command", os.Args[1])
 		os.Exit(2)
@@ -243,6 +245,58 @@ func cmdVerify(args []string) int {
 	}
 	knownHit := map[string]bool{}
 	nKnown := 0
+	// replay: for every function with an undischarged (not known) obligation, search a concrete failing input on the real code
+	isKnownObl := func(name string) bool {
+		for _, k := range known {
+			if k.Obl == name {
+				return true
+			}
+		}
+		return false
+	}
+	replayOf := map[string]*ReplayResult{}
+	{
+		need := map[string]bool{}
+		for _, o := range failed {
+			if !isKnownObl(o.Name) {
+				need[o.Func] = true
+			}
+		}
+		for _, r := range outOfReach {
+			need[strings.SplitN(r, ":", 2)[0]] = true
+		}
+		var keys []string
+		for k := range need {
+			if w.Funcs[k] != nil && w.Funcs[k].Contract != nil {
+				keys = append(keys, k)
+			}
+		}
+		sort.Strings(keys)
+		if len(keys) > 12 {
+			keys = keys[:12]
+		}
+		ncases := 1500
+		if *tier == "thorough" {
+			ncases = 6000
+		}
+		for i, r := range replayAll(w, keys, ncases, seed, 8) {
+			replayOf[keys[i]] = r
+		}
+	}
+	replayInfo := func(fn string) (interface{}, string) {
+		r := replayOf[fn]
+		if r == nil {
+			return nil, " no-failing-input-found"
+		}
+		for _, f := range r.Failures {
+			if isKnownObl(f.Label) {
+				continue
+			}
+			return map[string]interface{}{"function": fn, "violated_clause": f.Label, "clause_text": f.Text, "kind": f.Kind, "config": f.Config, "inputs": f.Inputs, "observed_outputs": f.Outputs, "witness": f.Witness,
+				"how": "generated in-package test run with go test -overlay against /repo's working tree; " + fmt.Sprint(r.Evaluated) + " admissible cases evaluated"}, ""
+		}
+		return map[string]interface{}{"function": fn, "supported": r.Supported, "reason": r.Reason, "evaluated": r.Evaluated, "error": r.Error}, " no-failing-input-found"
+	}
 	for _, o := range failed {
 		isKnown := false
 		for _, k := range known {
@@ -261,17 +315,19 @@ func cmdVerify(args []string) int {
 		violations++
 		path := writeReplay(*replayDir, pid, o.Name, map[string]interface{}{
 			"obligation": o.Name, "function": o.Func, "kind": o.Kind, "where": o.Where, "result": o.Result, "solver": o.Solver,
-			"solver_output_model": o.Model, "candidate_model_qf_relaxation": o.CandModel, "detail": o.Detail, "goal": o.Goal.String(), "failing_input": nil,
+			"solver_output_model": o.Model, "candidate_model_qf_relaxation": o.CandModel, "detail": o.Detail, "goal": o.Goal.String(), "failing_input": func() interface{} { x, _ := replayInfo(o.Func); return x }(),
 		})
-		fmt.Printf("VIOLATION property=%s replay=%s no-failing-input-found\n", pid, path)
+		_, suffix := replayInfo(o.Func)
+		fmt.Printf("VIOLATION property=%s replay=%s%s\n", pid, path, suffix)
 	}
 	for _, r := range outOfReach {
 		violations++
 		path := writeReplay(*replayDir, pid, "out-of-reach-"+strings.SplitN(r, ":", 2)[0], map[string]interface{}{
-			"obligation": strings.SplitN(r, ":", 2)[0] + "/in-reach", "detail": r, "failing_input": nil,
+			"obligation": strings.SplitN(r, ":", 2)[0] + "/in-reach", "detail": r, "failing_input": func() interface{} { x, _ := replayInfo(strings.SplitN(r, ":", 2)[0]); return x }(),
 			"note": "the function under contract left the verifier's subset or its contract no longer matches the code; every obligation of the function is undischarged",
 		})
-		fmt.Printf("VIOLATION property=%s replay=%s no-failing-input-found\n", pid, path)
+		_, suffix := replayInfo(strings.SplitN(r, ":", 2)[0])
+		fmt.Printf("VIOLATION property=%s replay=%s%s\n", pid, path, suffix)
 	}
 	fmt.Printf("functions=%d obligations=%d discharged=%d violations=%d load=%.1fs gen=%.1fs solve=%.1fs\n", len(reports), len(all), nd, violations, loadT.Seconds(), genT.Seconds(), solveT.Seconds())
 	if *verbose {
@@ -392,4 +448,82 @@ func truncate(s string, n int) string {
 
 func indent(s, p string) string {
 	return p + strings.ReplaceAll(strings.TrimRight(s, "\n"), "\n", "\n"+p)
+}
+
+func cmdReplay(args []string) int {
+	fs := flag.NewFlagSet("replay", flag.ExitOnError)
+	repo := fs.String("repo", "/repo", "repository root")
+	fn := fs.String("func", "", "function keys (comma separated); empty = all under contract")
+	prop := fs.String("prop", "", "only functions tagged with this property")
+	n := fs.Int("n", 600, "cases per function")
+	par := fs.Int("par", 8, "parallel harness runs")
+	fs.Parse(args)
+	seed := 0
+	fmt.Sscan(os.Getenv("VERIF_SEED"), &seed)
+	w, err := loadWorld(*repo, *repo)
+	if err != nil {
+		fmt.Println("load error:", err)
+		return 2
+	}
+	var keys []string
+	for k, fi := range w.Funcs {
+		if fi.Contract == nil || fi.Contract.Trusted && *fn == "" {
+			continue
+		}
+		if *fn != "" && !strings.Contains(","+*fn+",", ","+k+",") {
+			continue
+		}
+		if *prop != "" && !hasTag(fi.Contract.tags(), *prop) {
+			continue
+		}
+		keys = append(keys, k)
+	}
+	sort.Strings(keys)
+	results := replayAll(w, keys, *n, seed, *par)
+	bad := 0
+	for _, r := range results {
+		switch {
+		case !r.Supported:
+			fmt.Printf("n/a   %-55s %s\n", r.Function, r.Reason)
+		case r.Error != "":
+			fmt.Printf("ERROR %-55s %s\n", r.Function, truncate(r.Error, 400))
+			bad++
+		case len(r.Failures) > 0:
+			bad++
+			f := r.Failures[0]
+			b, _ := json.Marshal(map[string]interface{}{"config": f.Config, "inputs": f.Inputs, "outputs": f.Outputs, "witness": f.Witness})
+			fmt.Printf("FAIL  %-55s %s %s [%s] %s\n", r.Function, f.Kind, f.Clause, f.Text, truncate(string(b), 700))
+		default:
+			fmt.Printf("ok    %-55s evaluated=%d inadmissible=%d skipped-clauses=%d %.1fs\n", r.Function, r.Evaluated, r.Inadmiss, len(r.ClauseSkip), r.Seconds)
+		}
+	}
+	if bad > 0 {
+		return 1
+	}
+	return 0
+}
+
+func replayAll(w *World, keys []string, n, seed, par int) []*ReplayResult {
+	results := make([]*ReplayResult, len(keys))
+	sem := make(chan struct{}, par)
+	done := make(chan int)
+	for i, k := range keys {
+		go func(i int, k string) {
+			sem <- struct{}{}
+			defer func() { <-sem; done <- i }()
+			eng := newEngine(w)
+			eng.macros = map[string]*Macro{}
+			for _, m := range fileMacros {
+				eng.macros[m.Name] = m
+			}
+			fi := w.Funcs[k]
+			eng.fi = fi
+			eng.frames = []frame{{pkg: fi.Pkg, fi: fi}}
+			results[i] = eng.runReplay(fi, n, seed)
+		}(i, k)
+	}
+	for range keys {
+		<-done
+	}
+	return results
 }
